@@ -30,6 +30,13 @@ def _patch_crosshair():
             return None
         return _o(fn, sig, bound, subconditions, allow_interpretation)
     C.consider_shortcircuit = _no_sc
+    # CrossHair measures its time limits in process CPU time; the caps of the driver (and its --budget
+    # arithmetic) are wall-clock, and the simulated runtime (E3) spends wall time waiting on thread
+    # hand-overs: both modules that read the clock are switched to the monotonic wall clock.
+    import time as _t
+    import crosshair.statespace as SS
+    C.process_time = _t.monotonic
+    SS.process_time = _t.monotonic
 
 
 SOLVER = {'calls': 0, 'seconds': 0.0}
